@@ -16,6 +16,18 @@ EXTENDS Sig
 IsErrorType(t) == t.k = "basic" /\ t.n = "error"
 IsContext(t)   == t.k = "named" /\ t.p = "Scontext" /\ t.n = "Context"
 
+\* template/var.go Nillable(): can the variable hold nil?  (var.go also answers true for arrays, which cannot: the
+\* contract leaves arrays open -- "any" -- instead of copying that quirk.)
+NillableNamed == {"I", "LI", "GI", "LGI", "RW", "LG2", "Reader", "Writer", "ReadWriter", "Context", "Stringer", "Locker", "LS"}
+ExpNillable(t) == CASE t.k \in {"ptr", "map", "iface", "func", "chan", "slice", "tp"} -> "true"
+                    [] t.k = "array" -> "any"
+                    [] t.k = "basic" -> IF t.n \in {"error", "any"} THEN "true" ELSE "false"
+                    [] t.k \in {"named", "inst"} -> IF t.n \in NillableNamed THEN "true" ELSE IF t.n \in AliasNames THEN "any" ELSE "false"
+                    [] OTHER -> "false"
+\* every Param accessor, for the i-th parameter and for the i-th result: a RESULT IS NEVER VARIADIC
+ExpParam(m, i)  == [variadic |-> m.va /\ i = Len(m.ps), nillable |-> ExpNillable(ParamType(m, i))]
+ExpResult(m, i) == [variadic |-> FALSE, nillable |-> ExpNillable(m.rs[i].t)]
+
 ExpMethod(m) ==
   [name            |-> m.n,
    nparams         |-> Len(m.ps),
@@ -25,7 +37,9 @@ ExpMethod(m) ==
    hasParams       |-> Len(m.ps) > 0,
    hasReturns      |-> Len(m.rs) > 0,
    returnStatement |-> IF Len(m.rs) > 0 THEN "return" ELSE "",
-   acceptsContext  |-> Len(m.ps) > 0 /\ IsContext(ParamType(m, 1))]
+   acceptsContext  |-> Len(m.ps) > 0 /\ IsContext(ParamType(m, 1)),
+   params          |-> [i \in 1..Len(m.ps) |-> ExpParam(m, i)],
+   results         |-> [i \in 1..Len(m.rs) |-> ExpResult(m, i)]]
 
 \* expectation for a target: each method of the method set exactly once (order free), the type parameters in order
 ExpData(methods, tps) ==
